@@ -150,7 +150,15 @@ type seqImpl struct {
 func newSeqImpl(dir string, roots int) *seqImpl {
 	im := &seqImpl{dir: dir, ctx: context.Background(), txs: map[int]fs_db.Tx{}}
 	for i := 0; i < roots; i++ {
-		im.roots = append(im.roots, filepath.Join(dir, fmt.Sprintf("root%d", i)))
+		// configured spellings need not be clean paths: a trailing slash, a "./" or "x/../" detour
+		root := filepath.Join(dir, fmt.Sprintf("root%d", i))
+		switch i % 3 {
+		case 1:
+			root += "/"
+		case 2:
+			root = dir + "/./" + fmt.Sprintf("root%d", i)
+		}
+		im.roots = append(im.roots, root)
 	}
 	im.cfg = config.Config{
 		Storage: config.Storage{DbPath: filepath.Join(dir, "badger"), MaxDirCount: 100,
